@@ -154,4 +154,25 @@ example : wfAllB { toyB with leadOut := [20000] } ⟨20, 1⟩ = false := by deci
     the lead-out: the class-B obligation fails -/
 example : wfAllB { toyB with bursts := [(600, -600), (600, -1200)] } ⟨20, 1⟩ = false := by decide +kernel
 
+/-- non-vacuity, class C: a TDC-like toy (bi-phase, 315 µs half bits, lead-in `[315, −315]`, gap −89 ms) meets `wfAllC`
+    at 5 % and 20 %; at 20 % the last half bit merged with the gap is swallowed by the gap's window (second alternative of
+    `loM`), at 5 % … also (the window of −89 ms is wide); with a short gap it is split off instead -/
+def toyC : Tables :=
+  { name := "ToyC", frequency := 38000, bitCount := 8, order := .msb, shape := .pairs,
+    leadIn := [315, -315], leadOut := [-89000], bursts := [(-315, 315), (315, -315)], hasMiddle := false,
+    repeatLeadIn := [], repeatLeadOut := [], repeatBursts := [],
+    params := [("D", 0, 3), ("F", 4, 7)], codeOrder := [("D", 4), ("F", 4)], encodeParams := [("device", 0, 15), ("function", 0, 15)],
+    repeatTimeout := 0, decodeOverridden := false }
+
+example : wfAllC toyC ⟨20, 1⟩ = true ∧ wfAllC toyC ⟨5, 1⟩ = true := by decide +kernel
+example : wfAllC { toyC with leadOut := [-2000] } ⟨5, 1⟩ = true := by decide +kernel
+/-- a lead-in whose last duration swallows the merged first half bit (2700 + 300 is within 20 % of 2700) fails it -/
+example : wfAllC { toyC with leadIn := [2700], bursts := [(-300, 300), (300, -300)] } ⟨20, 1⟩ = false := by decide +kernel
+/-- class C with a frame period: an RC5-like toy meets `wfAllCp`; a period the longest frame does not fit into does not -/
+def toyCp : Tables :=
+  { toyC with name := "ToyCp", leadIn := [889], leadOut := [114000], bursts := [(889, -889), (-889, 889)] }
+example : wfAllCp toyCp ⟨20, 1⟩ = true ∧ wfAllCp toyCp ⟨5, 1⟩ = true := by decide +kernel
+example : wfAllCp { toyCp with leadOut := [10000] } ⟨20, 1⟩ = false := by decide +kernel
+
+
 end IRModel.Props.Wrapper
